@@ -14,7 +14,7 @@ its complete rewrite, visibly and durably (`LGood`); the origin of every file th
 namespace Mdsort.Proofs
 open Mdsort Mdsort.Model
 open Mdsort.Proofs.World (wp wp_mono wp_inv_mono wp_bind_mono wp_call_any GoodAt Good GoodN LG LGood LinPre LinCur LinInv Hist linAt
-  bind_eq pure_eq call_bind ret_bind call_bind' All Calls Harmless NotOpenRd)
+  bind_eq pure_eq call_bind ret_bind call_bind' All Calls NotOpenRd)
 
 /-- The invariant of `processMessage` on a message that descends from `f0`. -/
 def LPM (w0 : World) (l0 : Lin) (N0 : Nat) (o0 : Nat → Nat) (f0 : Nat) (cs : List Bytes) (w : World) : Prop :=
@@ -82,46 +82,86 @@ theorem lin_messageParseP {w0 : World} {l0 : Lin} (d : Handle) (dir name content
   | name x => exact ⟨hlpm1, by intro h; cases h⟩
   | eof => exact ⟨hlpm1, by intro h; cases h⟩
 
+theorem GoodAt_mono {w : World} {cs cs' : List Bytes} {p n : Bytes} {g : Nat} (h : GoodAt w cs p n g)
+    (hs : ∀ c ∈ cs, c ∈ cs') : GoodAt w cs' p n g := by
+  obtain ⟨h1, h2, f, h3, h4, h5⟩ := h
+  exact ⟨h1, h2, f, h3, hs _ h4, hs _ h5⟩
+
+theorem LG.mono {w0 : World} {l0 : Lin} {N0 : Nat} {o0 : Nat → Nat} {f0 fid0 : Nat} {cs cs' : List Bytes} {w : World}
+    (h : LG w0 l0 N0 o0 f0 fid0 cs w) (hs : ∀ c ∈ cs, c ∈ cs') : LG w0 l0 N0 o0 f0 fid0 cs' w := by
+  obtain ⟨hli, p, n, g, hg, hA⟩ := h
+  exact ⟨hli, p, n, g, GoodAt_mono hg hs, hA⟩
+
+theorem LPM.mono {w0 : World} {l0 : Lin} {N0 : Nat} {o0 : Nat → Nat} {f0 : Nat} {cs cs' : List Bytes} {w : World}
+    (h : LPM w0 l0 N0 o0 f0 cs w) (hs : ∀ c ∈ cs, c ∈ cs') : LPM w0 l0 N0 o0 f0 cs' w := by
+  obtain ⟨hp, p, n, g, hg, ho⟩ := h
+  exact ⟨hp, p, n, g, GoodAt_mono hg hs, ho⟩
+
+/-- The invariant of `processMessage` while the answers of the operating system to the questions of evaluation
+(`command`, `isdirectory`, file-time `date` conditions) are not known: for SOME answers `as`. -/
+def LPMA (env : PEnv) (orc : EvalOracles) (expr : Expr) (w0 : World) (l0 : Lin) (N0 : Nat) (o0 : Nat → Nat) (f0 : Nat)
+    (dir name content : Bytes) (w : World) : Prop :=
+  ∃ as, LPM w0 l0 N0 o0 f0 [content, wholeRewrite env orc expr dir name content as] w
+
 /-- **One message, by lineage**: `processMessage` on a registered message whose entry is bound to the file `fid`
 (complete, as registered), rules without discard, under every fault plan: after every call the origin of every file that
 existed is unchanged, and some entry is bound to a file that descends from what `fid` descended from and holds the
-message or its complete rewrite, visibly and durably. -/
+message or a complete rewrite of it by the rules (for some answers of the operating system), visibly and durably. -/
 theorem lin_processMessage (env : PEnv) (orc : EvalOracles) (expr : Expr) (md : Maildir) (name : Bytes) (st : MainSt)
     {w0 : World} {l0 : Lin} {wP : World} {d : Handle} {content : Bytes} {fid : Nat}
     (hH : Hist w0 wP) (hd : md.dirH = some d) (hp : wP.dirPath d = some md.path)
     (hfc : st.files.get md.path name = some content)
     (hl : wP.lookup md.path name = some fid) (hlt : fid < wP.nextFid) (hf : wP.file fid = some ⟨content, content⟩)
     (hnd : WholeNoDiscard env orc expr) :
-    wp (LPM w0 l0 wP.nextFid (linAt w0 l0 wP).org ((linAt w0 l0 wP).org fid) [content, wholeRewrite env orc expr md.path name content])
+    wp (LPMA env orc expr w0 l0 wP.nextFid (linAt w0 l0 wP).org ((linAt w0 l0 wP).org fid) md.path name content)
       (processMessage env orc expr md name st)
-      (fun _ w' => LPM w0 l0 wP.nextFid (linAt w0 l0 wP).org ((linAt w0 l0 wP).org fid)
-        [content, wholeRewrite env orc expr md.path name content] w') wP := by
+      (fun _ w' => LPMA env orc expr w0 l0 wP.nextFid (linAt w0 l0 wP).org ((linAt w0 l0 wP).org fid) md.path name content w') wP := by
   rw [processMessage_eq env orc expr md name st d content hd hfc]
-  have hg0 : GoodAt wP [content, wholeRewrite env orc expr md.path name content] md.path name fid :=
-    ⟨hl, hlt, _, hf, by simp, by simp⟩
-  refine wp_bind_mono (whole_wp_all (lin_messageParseP (l0 := l0) d md.path name content _ hH hp hl hg0)
-    (all_messageParseP_as d md.path name content)) ?_
+  have hg0 : GoodAt wP [content] md.path name fid := ⟨hl, hlt, _, hf, by simp, by simp⟩
+  -- while the answers are not known: the message itself is there
+  have inv0 : ∀ w', LPM w0 l0 wP.nextFid (linAt w0 l0 wP).org ((linAt w0 l0 wP).org fid) [content] w' →
+      LPMA env orc expr w0 l0 wP.nextFid (linAt w0 l0 wP).org ((linAt w0 l0 wP).org fid) md.path name content w' :=
+    fun w' h => ⟨[], h.mono (by intro c hc; simp only [List.mem_singleton] at hc; subst hc; simp)⟩
+  refine wp_bind_mono (wp_inv_mono (whole_wp_all (lin_messageParseP (l0 := l0) d md.path name content _ hH hp hl hg0)
+    (all_messageParseP_as d md.path name content)) inv0) ?_
   rintro pm w1 ⟨⟨hlpm, hlg⟩, hpa⟩
   cases pm with
-  | none => exact hlpm
+  | none => exact inv0 _ hlpm
   | some ms =>
-    have hLG := hlg rfl
-    have hv := msVerdict_of_parsed env orc expr md.path name content ms hpa
-    simp only [afterParse, hv]
-    have freeThen : ∀ (ms' : MsgSt) (r : MainSt × Maildir) (w2 : World),
+    have hLG0 := hlg rfl
+    simp only [afterParse]
+    -- evaluation: `open("/dev/null")`, `fork`, `waitpid`, `close`, `stat` only
+    have hcE : Calls World.Harmless (evalMs env orc expr ms) :=
+      calls_mono' (evalP_calls _ _ _ _) (by
+        rintro c (h | h | h | ⟨x, h⟩ | ⟨x, h⟩) <;> subst h <;> exact True.intro)
+    have hcN : Calls NotOpenRd (evalMs env orc expr ms) :=
+      calls_mono' (evalP_calls _ _ _ _) (by
+        rintro c (h | h | h | ⟨x, h⟩ | ⟨x, h⟩) <;> subst h <;> exact True.intro)
+    refine wp_bind_mono (wp_inv_mono (World.whole_wp_and (World.lg_harmless hcE hcN hLG0)
+      (World.wp_evalFoot (msgEnv env orc ms.path) expr ms.msg ms.flags w1))
+      (fun w' h => inv0 w' (LPM.of_lg h.1 hlt rfl))) ?_
+    rintro ev w2 ⟨hLG1, -, as, hev⟩
+    have hv : evVerdict env orc ms ev = verdictA env orc expr md.path name content as := by
+      rw [hev]; exact msVerdictA_of_parsed env orc expr md.path name content ms hpa as
+    rw [hv]
+    have hLG : LG w0 l0 wP.nextFid (linAt w0 l0 wP).org ((linAt w0 l0 wP).org fid) fid
+        [content, wholeRewrite env orc expr md.path name content as] w2 :=
+      LG.mono hLG1 (by intro c hc; simp only [List.mem_singleton] at hc; subst hc; simp)
+    have invA : ∀ w', LG w0 l0 wP.nextFid (linAt w0 l0 wP).org ((linAt w0 l0 wP).org fid) fid
+          [content, wholeRewrite env orc expr md.path name content as] w' →
+        LPMA env orc expr w0 l0 wP.nextFid (linAt w0 l0 wP).org ((linAt w0 l0 wP).org fid) md.path name content w' :=
+      fun w' h => ⟨as, LPM.of_lg h hlt rfl⟩
+    have freeThen : ∀ (ms' : MsgSt) (r : MainSt × Maildir) (w3 : World),
         LG w0 l0 wP.nextFid (linAt w0 l0 wP).org ((linAt w0 l0 wP).org fid) fid
-          [content, wholeRewrite env orc expr md.path name content] w2 →
-        wp (LPM w0 l0 wP.nextFid (linAt w0 l0 wP).org ((linAt w0 l0 wP).org fid)
-            [content, wholeRewrite env orc expr md.path name content])
+          [content, wholeRewrite env orc expr md.path name content as] w3 →
+        wp (LPMA env orc expr w0 l0 wP.nextFid (linAt w0 l0 wP).org ((linAt w0 l0 wP).org fid) md.path name content)
           ((freeP ms').bind fun _ => Prog.ret r)
-          (fun _ w' => LPM w0 l0 wP.nextFid (linAt w0 l0 wP).org ((linAt w0 l0 wP).org fid)
-            [content, wholeRewrite env orc expr md.path name content] w') w2 := by
-      intro ms' r w2 h2
-      refine wp_bind_mono (wp_inv_mono (World.lg_harmless (World.harmless_freeP ms') (World.nord_freeP ms') h2)
-        (fun _ h => LPM.of_lg h hlt rfl)) ?_
-      intro _ w3 h3
-      exact LPM.of_lg h3 hlt rfl
-    cases hvd : verdict env orc expr md.path name content with
+          (fun _ w' => LPMA env orc expr w0 l0 wP.nextFid (linAt w0 l0 wP).org ((linAt w0 l0 wP).org fid) md.path name content w') w3 := by
+      intro ms' r w3 h3
+      refine wp_bind_mono (wp_inv_mono (World.lg_harmless (World.harmless_freeP ms') (World.nord_freeP ms') h3) invA) ?_
+      intro _ w4 h4
+      exact invA _ h4
+    cases hvd : verdictA env orc expr md.path name content as with
     | unparsable => simp only [afterVerdict]; exact freeThen ms _ _ hLG
     | error => simp only [afterVerdict]; exact freeThen ms _ _ hLG
     | interpFail => simp only [afterVerdict]; exact freeThen ms _ _ hLG
@@ -130,13 +170,13 @@ theorem lin_processMessage (env : PEnv) (orc : EvalOracles) (expr : Expr) (md : 
       simp only [afterVerdict]
       split
       · exact freeThen _ _ _ hLG
-      · have hml : NoDiscard ml := hnd md.path name content ml msgs fl hvd
-        have hrw : wholeRewrite env orc expr md.path name content = (messageWrite (msgs 0)).1 := by
-          unfold wholeRewrite; rw [hvd]
+      · have hml : NoDiscard ml := hnd md.path name content as ml msgs fl hvd
+        have hrw : wholeRewrite env orc expr md.path name content as = (messageWrite (msgs 0)).1 := by
+          unfold wholeRewrite; rw [hvd]; rfl
         refine wp_bind_mono (wp_inv_mono (World.lin_matchesExec env ml
           { src := md, chsrc := false, ms := { ms with msg := msgs 0, flags := fl }, reject := false } hLG
-          (by rw [hrw]; simp) hml) (fun _ h => LPM.of_lg h hlt rfl)) ?_
-        intro x w2 h2
-        exact freeThen _ _ _ h2
+          (by rw [hrw]; simp) hml) invA) ?_
+        intro x w3 h3
+        exact freeThen _ _ _ h3
 
 end Mdsort.Proofs
